@@ -20,6 +20,7 @@ def run(ck, tier):
     ck.rule("R-C07-format", "writer and reader of the dictionary file agree on the delimiter: write_word_list writes each word followed by one '\\n'; dict_from_word_list splits with str::lines")
     ck.rule("R-C07-adopt", "the reloaded dictionary is adopted by open documents: harper-ls swaps dictionary and linter when `doc_state.dict != dict` (R-C05-rebuild); MergedDictionary equality compares the per-child hashes; add_dictionary records hash_dictionary(d) next to d; hash_dictionary feeds a hasher from words_iter() and reaches no case/apostrophe normaliser on the way, so two dictionaries that differ in a stored spelling never compare equal by construction")
     ck.not_decided += ["words containing a line break or differing only in case from an earlier word (value-level)", "multi-process races on the dictionary file", "harper-wasm import path is decided under C16 (R-C16-samedoc)"]
+    ck.rule("R-C07-first", "all other lints are unchanged by an added word: wherever harper-ls and harper-wasm build the merged dictionary, the curated dictionary is added before any user or file dictionary (the first part that knows a word's letters supplies its entry, so a user entry in front would replace the curated part-of-speech data of every case variant of the added word)")
     ck.rule("R-C07-reload", "the user and file dictionaries are answered from their files every time: every dictionary load_user_dictionary / load_file_dictionary returns is the result of load_dict (or a new empty dictionary when there is none) - an in-memory copy that outlives the call does not see words another harper-ls process or a hand edit put into the file, and the next save deletes them")
     p = facts.load()
     byk = fns_by_key(p)
@@ -28,6 +29,7 @@ def run(ck, tier):
     _format(ck, p, byk)
     _adopt(ck, p, byk)
     _reload(ck, p)
+    _curated_first(ck, p)
     from . import c06
     ck.rule("R-C07-accept", "an added word is accepted as written: the exact-spelling test compares like with like (rule instance of R-C06-exact) and the entry whose dialect the spell checker tests is not an earlier part's (rule instance of R-C06-union dialect)")
     sub = c05._Sub(ck, "R-C07-accept", "")
@@ -419,3 +421,33 @@ def _reload(ck, p):
                 ck.refuted(rule, key, f.loc(where) if where else f.span, msg)
         else:
             ck.proved(rule, key, f.span, "every returned dictionary is load_dict(path) of this call, or a new empty dictionary")
+
+
+def _curated_first(ck, p):
+    rule = "R-C07-first"
+    n = 0
+    for f in sorted(p.fns.values(), key=lambda f: f.name):
+        if not (f.name.startswith("harper_ls::") or f.name.startswith("harper_wasm::")) or f.get("kind") == "Promoted":
+            continue
+        news = [bi for bi, t in f.calls() if norm(inst_of(t)) == "harper_core::spell::merged_dictionary::{impl}::new"]
+        adds = [(bi, t) for bi, t in f.calls() if norm(inst_of(t)) == "harper_core::spell::merged_dictionary::{impl}::add_dictionary"]
+        if not news or not adds:
+            continue
+        n += 1
+        ck.saw(f)
+        cfg = Cfg(f)
+        pv = Prov(f)
+
+        def is_curated(t):
+            return any(o[0] == "call" and last(norm(o[3] or o[2] or "")) == "curated" for o in arg_roots(f, pv, t["args"][1]))
+        cur = [(bi, t) for bi, t in adds if is_curated(t)]
+        key = "%s:curated-first" % keyname(p, f)
+        if not cur:
+            ck.undecided(rule, key, f.span, "a merged dictionary is built here without the curated dictionary among the parts added in this function")
+            continue
+        late = [(bi, t) for bi, t in adds if not is_curated(t) and not any(cfg.dominates(cb, bi) for cb, _ in cur)]
+        if late:
+            ck.refuted(rule, key, f.loc(late[0][1]["ln"]), "a user/file dictionary is added to the merged dictionary before the curated one: the first part that knows a word's letters supplies its entry, so once a word is added (monday, english, colour) every case variant of it in later texts loses the curated part-of-speech data and lints that depend on it change or disappear")
+        else:
+            ck.proved(rule, key, f.span, "the curated dictionary is added first (%d further part(s) after it)" % (len(adds) - len(cur)))
+    ck.floor(rule, "functions that build a merged dictionary", n, 2)
